@@ -20,12 +20,18 @@ structure Arg where
 def cost (a : List UInt8) : Nat := a.length + 1
 
 /-- The limiter configuration after `normalize_options`: `-n`, `-L`, `-s` and the
-    system budget (`ARG_MAX - 2048 - environment size`). -/
+    system limiter: budget (`ARG_MAX - 2048 - environment size`, the environment
+    counted with one pointer per variable), per-argument pointer charge and the
+    per-argument cap. -/
 structure Limits where
   n : Option Nat
   l : Option Nat
   s : Option Nat
   sys : Nat
+  /-- bytes the system limiter charges per argument on top of its characters (the argv pointer) -/
+  ptr : Nat
+  /-- largest single argument, terminator included, the system accepts (`MAX_ARG_STRLEN`) -/
+  maxArg : Nat
   deriving DecidableEq, Repr
 
 /-- State of the limiter chain: `current_args`, `current_line`, and the two `current_size`s. -/
@@ -47,12 +53,13 @@ def tryArg (lim : Limits) (st : LState) (a : Arg) : Except Bool LState :=
   if lim.n.any (fun n => !(st.args < n)) then .error false
   else if lim.l.any (fun l => !(st.line ≤ l)) then .error false
   else if lim.s.any (fun s => !(st.sizeS + c ≤ s)) then .error true
-  else if !(st.sizeSys + c ≤ lim.sys) then .error true
+  else if !(c ≤ lim.maxArg) then .error true
+  else if !(st.sizeSys + c + lim.ptr ≤ lim.sys) then .error true
   else .ok {
     args := if a.kind ≠ .initial then st.args + 1 else st.args
     line := if a.kind = .hard then st.line + 1 else st.line
     sizeS := st.sizeS + c
-    sizeSys := st.sizeSys + c }
+    sizeSys := st.sizeSys + c + lim.ptr }
 
 /-- `CommandBuilderOptions::new`: the command and initial arguments pass through the chain. -/
 def initState (lim : Limits) : LState → List (List UInt8) → Option LState
